@@ -12,6 +12,8 @@
 -/
 import WaveletsVerif.Properties.C01
 import WaveletsVerif.Properties.C10
+import WaveletsVerif.Lemmas.PR
+import Mathlib.Tactic.IntervalCases
 namespace WV.C02
 open Finset WV
 variable {R : Type} [CommRing R]
@@ -81,8 +83,92 @@ theorem pr_two_tap_zero (a0 a1 b0 b1 c0 c1 d0 d1 : R)
       · exact getZ_of_ge _ _ (by simp; push_cast; omega)
     rw [hz, hz]; ring
 
+/-- **General perfect reconstruction, mode zero**: for every analysis/synthesis bank of any length `L ≥ 2`
+satisfying the polyphase biorthogonality conditions `PRBank` (finite, decidable for a concrete bank), and
+every signal, `idwt(dwt(x))` returns every sample of the original extent — PyWavelets' formulas, which the
+code is proved to compute (C01.afb1dOne_zero_eq_dwt, C10.sfb1dCh_eq_idwt). -/
+theorem pr_zero (h0 h1 g0 g1 x : List R) (hL : 2 ≤ h0.length) (hh1 : h1.length = h0.length)
+    (hg0 : g0.length = h0.length) (hg1 : g1.length = h0.length) (hpr : PRBank h0 h1 g0 g1)
+    (t : Nat) (ht : t < x.length) :
+    getN (Spec.idwt .zero g0 g1 (Spec.dwt .zero h0 x) (Spec.dwt .zero h1 x)) t = getN x t := by
+  have hN : 1 ≤ x.length := by omega
+  set K := dwtCoeffLen x.length h0.length with hK
+  have hKdef : K = (x.length + h0.length - 1) / 2 := rfl
+  have hlo : (Spec.dwt .zero h0 x).length = K := by simp [Spec.dwt, hK]
+  have hlo_get : ∀ (h : List R), h.length = h0.length → ∀ k < K,
+      getN (Spec.dwt .zero h x) k = ∑ i ∈ range x.length, getN x i * getZ h (2*(k:Int) + 1 - i) := by
+    intro h hh k hk
+    unfold Spec.dwt
+    simp only [hh]
+    rw [getN_tab]
+    simp only [← hK, hk, if_true]
+    rw [sumN_eq, ← hh]
+    simp only [Spec.ext]
+    exact reindex_neg h x (2*(k:Int) + 1)
+  unfold Spec.idwt
+  simp only [hlo, hg0]
+  rw [getN_tab]
+  have ht2 : t < 2 * K + 2 - h0.length := by omega
+  simp only [ht2, if_true]
+  rw [sumN_eq]
+  have step1 : ∀ k ∈ range K,
+      getN (Spec.dwt .zero h0 x) k * getZ g0 ((t:Int) + h0.length - 2 - 2*(k:Int))
+        + getN (Spec.dwt .zero h1 x) k * getZ g1 ((t:Int) + h0.length - 2 - 2*(k:Int))
+      = ∑ i ∈ range x.length, getN x i *
+          (getZ h0 (2*(k:Int) + 1 - i) * getZ g0 ((t:Int) + h0.length - 2 - 2*(k:Int))
+           + getZ h1 (2*(k:Int) + 1 - i) * getZ g1 ((t:Int) + h0.length - 2 - 2*(k:Int))) := by
+    intro k hk
+    have hk' : k < K := by simpa using hk
+    rw [hlo_get h0 rfl k hk', hlo_get h1 hh1 k hk', Finset.sum_mul, Finset.sum_mul, ← Finset.sum_add_distrib]
+    apply Finset.sum_congr rfl; intro i _; ring
+  rw [Finset.sum_congr rfl step1, Finset.sum_comm]
+  have step2 : ∀ i ∈ range x.length,
+      ∑ k ∈ range K, getN x i *
+          (getZ h0 (2*(k:Int) + 1 - i) * getZ g0 ((t:Int) + h0.length - 2 - 2*(k:Int))
+           + getZ h1 (2*(k:Int) + 1 - i) * getZ g1 ((t:Int) + h0.length - 2 - 2*(k:Int)))
+      = getN x i * (if ((t:Int) - i) = 0 then 1 else 0) := by
+    intro i hi
+    have hi' : i < x.length := by simpa using hi
+    rw [← Finset.mul_sum, Finset.sum_add_distrib]
+    have k0 := kernel_reindex h0 g0 x.length K i (t:Int) hi' hKdef (by omega)
+    have k1 := kernel_reindex h1 g1 x.length K i (t:Int) hi' (by rw [hh1]; exact hKdef) (by omega)
+    rw [hh1] at k1
+    rw [k0, k1, ← Finset.sum_add_distrib]
+    congr 1
+    have := prbank_all_lags h0 h1 g0 g1 (by omega) hg0 hg1 hpr ((i+1) % 2) (by omega) ((t:Int) - i)
+    rw [← this]
+    apply Finset.sum_congr rfl; intro a _
+    split <;> simp
+  rw [Finset.sum_congr rfl step2]
+  rw [Finset.sum_eq_single_of_mem t (by simpa using ht)]
+  · simp
+  · intro i _ hne
+    have : ¬ ((t:Int) - i = 0) := by omega
+    rw [if_neg this]; ring
+
+/-- with the un-pad rule this is perfect reconstruction on the original extent, with `N` or `N+1` samples -/
+theorem pr_zero_length (h0 g0 g1 x : List R) (h1 : List R) (hL : 2 ≤ h0.length) (hg0 : g0.length = h0.length)
+    (hN : 1 ≤ x.length) :
+    (Spec.idwt .zero g0 g1 (Spec.dwt .zero h0 x) (Spec.dwt .zero h1 x)).length = x.length ∨
+    (Spec.idwt .zero g0 g1 (Spec.dwt .zero h0 x) (Spec.dwt .zero h1 x)).length = x.length + 1 := by
+  rw [idwt_length_zero, hg0]
+  have : (Spec.dwt .zero h0 x).length = dwtCoeffLen x.length h0.length := by simp [Spec.dwt]
+  rw [this]
+  exact unpad_length x.length h0.length hL hN
+
 /-- non-vacuity: the integer "lazy" bank h0=(0,1), h1=(1,0), g0=(1,0), g1=(0,1) meets the equations
 (and Haar does over any ring containing 1/2) -/
 example : ((1:Int)*1 + 0*0 = 1) ∧ ((0:Int)*1 + 1*0 = 0) ∧ ((0:Int)*0 + 1*1 = 1) ∧ ((1:Int)*0 + 0*1 = 0) := by decide
+
+/-- non-vacuity of `PRBank`: two concrete integer banks (lengths 2 and 4) satisfy the conditions -/
+example : PRBank ([0, 1] : List Int) [1, 0] [1, 0] [0, 1] := by
+  intro p hp dd hdd
+  simp only [List.length_cons, List.length_nil] at hdd ⊢
+  interval_cases p <;> interval_cases dd <;> simp [Finset.sum_range_succ, getN, getZ]
+
+example : PRBank ([0, 1, 0, 0] : List Int) [0, 0, 1, 0] [0, 0, 1, 0] [0, 1, 0, 0] := by
+  intro p hp dd hdd
+  simp only [List.length_cons, List.length_nil] at hdd ⊢
+  interval_cases p <;> interval_cases dd <;> simp [Finset.sum_range_succ, getN, getZ]
 
 end WV.C02
